@@ -57,6 +57,8 @@ type Interp struct {
 	noMerge   bool
 	noFork    bool // speculative execution of a branch arm: a decision aborts it
 	merges    int
+	decCtr    int
+	decimals  map[*Term]*decimalRec
 
 	// concrete mode (translator validation / replay inside the engine)
 	concrete      bool
